@@ -82,8 +82,10 @@ F20_Leafs(t) == CASE t = "Q" -> { SelA("", "f", <<[n |-> "y", v |-> IntV("2")]>>
                   [] t = "O" -> { Sel("", "x"), Sel("k", "x") }
                   [] t = "I" -> { Sel("", "x") }
                   [] t = "A" -> { Sel("", "p") }
+                  [] t = "SR" -> { SelA("", "r", <<[n |-> "y", v |-> IntV("2")]>>),
+                                   SelA("k", "r", <<[n |-> "e", v |-> EnumV("RED")]>>) }
                   [] OTHER -> {}
-F20_Comps(t) == CASE t = "Q" -> { Sel("", "l"), Sel("", "ll"), Sel("", "il"), Sel("m", "l") }
+F20_Comps(t) == CASE t = "Q" -> { Sel("", "l"), Sel("", "ll"), Sel("", "il"), Sel("m", "l"), Sel("", "srl") }
                   [] t = "O" -> { Sel("", "z") }
                   [] OTHER -> {}
 F20_Inlines(t) == IF t = "I" THEN { "A" } ELSE {}
